@@ -322,3 +322,263 @@ func VerifNarrowChain(n int) {
 	}
 	verifExpect(out, "C10-chain-later-conditional", "C10/and-chain/later-conditional-narrows-from-wrong-type/"+shape, 10, verifRenderKinds(notNil))
 }
+
+// ---- metamorphic helpers ----
+
+// verifRunTwo runs two programs from the same initial state (Snapshot/Restore) and returns
+// their outputs.
+func verifRunTwo(srcA, srcB string) (string, string) {
+	mark := verifapi.Snapshot()
+	a := verifRun(srcA)
+	verifapi.Restore(mark)
+	b := verifRun(srcB)
+	return a, b
+}
+
+// verifDropShift normalises the output of a program into which `delta` lines were inserted
+// before (1-based) row `at`: lines reported for the inserted rows are dropped and every later
+// row is moved back by delta.
+func verifDropShift(out string, at, delta int) string {
+	if out == "" {
+		return ""
+	}
+	res := ""
+	for _, l := range strings.Split(strings.TrimSuffix(out, "\n"), "\n") {
+		parts := strings.SplitN(l, ":::", 3)
+		if len(parts) < 3 {
+			res += l + "\n"
+			continue
+		}
+		row := verifAtoi(parts[1])
+		switch {
+		case row >= at && row < at+delta:
+			continue
+		case row >= at+delta:
+			row -= delta
+		}
+		res += parts[0] + ":::" + verifItoa(row) + ":::" + parts[2] + "\n"
+	}
+	return res
+}
+
+func verifAtoi(s string) int {
+	n := 0
+	for i := 0; i < len(s); i++ {
+		n = n*10 + int(s[i]-'0')
+	}
+	return n
+}
+
+// verifExpectShift asserts that B (= A with `delta` lines inserted before row `at`) reports
+// exactly what A reports, apart from the row shift. Witnesses let the driver re-judge the
+// pair on the native binary.
+func verifExpectShift(id, class, srcA, srcB, outA, outB string, at, delta int) {
+	verifapi.Witness("srcA", srcA)
+	verifapi.Witness("srcB", srcB)
+	verifapi.Witness(id+".at", verifItoa(at))
+	verifapi.Witness(id+".delta", verifItoa(delta))
+	verifapi.Classify(class)
+	verifapi.Assert(verifDropShift(outB, at, delta) == outA, id)
+}
+
+// ---- reference renderings (order-insensitive: every permutation is accepted) ----
+
+func verifUniq(ks []int) []int {
+	var uniq []int
+	for _, k := range ks {
+		dup := false
+		for _, u := range uniq {
+			if u == k {
+				dup = true
+			}
+		}
+		if !dup {
+			uniq = append(uniq, k)
+		}
+	}
+	return uniq
+}
+
+func verifPerms(ks []int) [][]int {
+	if len(ks) <= 1 {
+		return [][]int{ks}
+	}
+	var out [][]int
+	for i := range ks {
+		var rest []int
+		for j := range ks {
+			if j != i {
+				rest = append(rest, ks[j])
+			}
+		}
+		for _, p := range verifPerms(rest) {
+			out = append(out, append([]int{ks[i]}, p...))
+		}
+	}
+	return out
+}
+
+func verifJoinKinds(ks []int) string {
+	s := ""
+	for i, k := range ks {
+		if i > 0 {
+			s += " "
+		}
+		s += verifKN(k)
+	}
+	return s
+}
+
+// verifUnionAlts: acceptable renderings of a value whose possible kinds are ks.
+func verifUnionAlts(ks []int) []string {
+	u := verifUniq(ks)
+	if len(u) == 1 {
+		return []string{verifKN(u[0])}
+	}
+	var out []string
+	for _, p := range verifPerms(u) {
+		out = append(out, "Union<"+verifJoinKinds(p)+">")
+	}
+	return out
+}
+
+// verifArrayAlts: acceptable renderings of an array whose element kinds are ks.
+func verifArrayAlts(ks []int) []string {
+	var out []string
+	for _, p := range verifPerms(verifUniq(ks)) {
+		out = append(out, "Array<"+verifJoinKinds(p)+">")
+	}
+	return out
+}
+
+// verifExpectOneOf asserts that the diagnostic for row is one of the acceptable renderings.
+func verifExpectOneOf(out string, id, class string, row int, alts []string) {
+	verifapi.Witness(id+".row", verifItoa(row))
+	verifapi.WitnessList(id+".expect", alts...)
+	got := verifLine(out, row)
+	ok := false
+	for _, a := range alts {
+		if got == a {
+			ok = true
+		}
+	}
+	verifapi.Classify(class)
+	verifapi.Assert(ok, id)
+}
+
+// ---- C09: inferred types against the reference model ----
+
+var verifInferNames = []string{"literal-kind", "reassignment", "array-literal", "array-index", "hash-literal-lookup", "push-growth", "shovel-growth",
+	"optional-unify-first", "unify-shift", "self-flatten", "keyvaluearray-values", "self-dup", "copy-then-reassign", "chain-flatten-first",
+	"array-of-same", "union-return", "hash-store-then-lookup", "union-return-delete", "receiver-after-first", "argument-return"}
+
+// VerifInfer: straight-line skeletons probed with dbtp; the expected type is computed from
+// the kind variables by the reference model of the property statement.
+func VerifInfer(n int) {
+	sk := verifapi.Concrete(verifapi.Int("skeleton", 0, len(verifInferNames)-1))
+	var s *verifSym
+	src := ""
+	name := verifInferNames[sk]
+	cls := "C09/inferred-type-differs-from-reference/" + name
+	type probe struct {
+		row  int
+		alts func() []string
+	}
+	var probes []probe
+	arr := func() []string { return verifArrayAlts([]int{s.ka, s.kb}) }
+	uni := func() []string { return verifUnionAlts([]int{s.ka, s.kb}) }
+	uniNil := func() []string { return verifUnionAlts([]int{s.ka, s.kb, base.VkNil}) }
+	one := func(k *int) func() []string { return func() []string { return []string{verifKN(*k)} } }
+	s = &verifSym{}
+	switch sk {
+	case 0:
+		s = verifInstallSym("a")
+		src = "x = Sym.a\ndbtp x\n"
+		probes = []probe{{2, one(&s.ka)}}
+	case 1:
+		s = verifInstallSym("a", "b")
+		src = "x = Sym.a\nx = Sym.b\ndbtp x\n"
+		probes = []probe{{3, one(&s.kb)}}
+	case 2:
+		s = verifInstallSym("a", "b")
+		src = "a = [Sym.a, Sym.b]\ndbtp a\n"
+		probes = []probe{{2, arr}}
+	case 3:
+		s = verifInstallSym("a", "b")
+		src = "a = [Sym.a, Sym.b]\nb = a[0]\ndbtp b\n"
+		probes = []probe{{3, uni}}
+	case 4:
+		s = verifInstallSym("a", "b")
+		src = "h = {k: Sym.a, j: Sym.b}\nv = h[:k]\ndbtp v\n"
+		probes = []probe{{3, one(&s.ka)}}
+	case 5:
+		s = verifInstallSym("a", "b")
+		src = "a = [Sym.a]\na.push(Sym.b)\ndbtp a\n"
+		probes = []probe{{3, arr}}
+	case 6:
+		s = verifInstallSym("a", "b")
+		src = "a = [Sym.a]\na << Sym.b\ndbtp a\n"
+		probes = []probe{{3, arr}}
+	case 7:
+		s = verifInstallSym("a", "b")
+		src = "a = [Sym.a, Sym.b]\nb = a.first\ndbtp b\n"
+		probes = []probe{{3, uniNil}}
+	case 8:
+		s = verifInstallSym("a", "b")
+		src = "a = [Sym.a, Sym.b]\nb = a.shift\ndbtp b\n"
+		probes = []probe{{3, uni}}
+	case 9:
+		s = verifInstallSym("a", "b")
+		src = "a = [Sym.a, Sym.b]\nb = a.flatten\ndbtp b\n"
+		probes = []probe{{3, arr}}
+	case 10:
+		s = verifInstallSym("a", "b")
+		src = "h = {k: Sym.a, j: Sym.b}\nv = h.values\ndbtp v\n"
+		probes = []probe{{3, arr}}
+	case 11:
+		s = verifInstallSym("a", "b")
+		src = "a = [Sym.a, Sym.b]\nb = a.dup\ndbtp b\n"
+		probes = []probe{{3, arr}}
+	case 12:
+		s = verifInstallSym("a", "b")
+		src = "x = Sym.a\ny = x\nx = Sym.b\ndbtp y\ndbtp x\n"
+		probes = []probe{{4, one(&s.ka)}, {5, one(&s.kb)}}
+	case 13:
+		s = verifInstallSym("a", "b")
+		src = "a = [Sym.a, Sym.b]\nb = a.flatten.first\ndbtp b\n"
+		probes = []probe{{3, uniNil}}
+	case 14:
+		s = verifInstallSym("a")
+		src = "s = Sym.a\nt = [s, s]\ndbtp t\n"
+		probes = []probe{{3, func() []string { return verifArrayAlts([]int{s.ka}) }}}
+	case 15:
+		s = verifInstallSym("u")
+		src = "x = Sym.u\ndbtp x\n"
+		probes = []probe{{2, func() []string { return verifUnionAlts([]int{s.u1, s.u2}) }}}
+	case 16:
+		s = verifInstallSym("a", "b")
+		src = "h = {k: Sym.a}\nh[:k] = Sym.b\nv = h[:k]\ndbtp v\n"
+		probes = []probe{{4, one(&s.kb)}}
+	case 17:
+		s = verifInstallSym("a")
+		src = "h = {k: Sym.a}\nv = h.delete(:k)\ndbtp v\n"
+		probes = []probe{{3, func() []string { return verifUnionAlts([]int{s.ka, base.VkNil}) }}}
+	case 18:
+		s = verifInstallSym("a", "b")
+		src = "a = [Sym.a, Sym.b]\nb = a.first\ndbtp a\n"
+		probes = []probe{{3, arr}}
+	case 19:
+		s = verifInstallSym("a")
+		src = "x = p(Sym.a)\ndbtp x\n"
+		probes = []probe{{2, one(&s.ka)}}
+	}
+	verifapi.Witness("src", src)
+	verifapi.WitnessList("Sym.a", verifKN(s.ka))
+	verifapi.WitnessList("Sym.b", verifKN(s.kb))
+	verifapi.WitnessList("Sym.u", verifKN(s.u1), verifKN(s.u2))
+	out := verifRun(src)
+	verifapi.Reach("ran")
+	for i, pr := range probes {
+		verifExpectOneOf(out, "C09-probe"+verifItoa(i), cls, pr.row, pr.alts())
+	}
+}
